@@ -5,7 +5,7 @@
     regenerated from the Python source into TM.Gen.Tables on every run; each group starts
     with a computational check of the generated tables. *)
 From Coq Require Import ZArith List Bool.
-From TM Require Import Codec.BaseN Codec.BaseNP Codec.Dec Codec.Event Codec.EventP Codec.Rule Codec.RuleP Gen.Tables Codec.C15Run.
+From TM Require Import Codec.BaseN Codec.BaseNP Codec.Dec Codec.Event Codec.EventP Codec.Rule Codec.RuleP Codec.Json Codec.JsonP Codec.Ldap Codec.LdapP Gen.Tables Codec.C15Run.
 Import ListNotations.
 Open Scope Z_scope.
 
@@ -146,9 +146,10 @@ Theorem C15_node_tables_ok : node_tables_ok c15_node_tables = true.
 Proof. vm_compute. reflexivity. Qed.
 Print Assumptions C15_node_tables_ok.
 
-(** PARTIAL (see the refuted witnesses below): for every header, every event class and every body in
-    [body_domain] -- string fields are strings (not None), `where` has no ':', `uniqueid` of the service
-    events has no '.', rc/signal any integers, is_oom any bool -- from_data (to_data e) = e *)
+(** PARTIAL (see the refuted witness below): for every header, every event class and every body in
+    [body_domain] -- `where` is a string without ':', `why` of a scheduled event is None or any string,
+    the other string fields are strings (not None), `uniqueid` of the service events has no '.',
+    rc/signal any integers, is_oom any bool -- from_data (to_data e) = e *)
 Theorem C15_event_roundtrip_partial : forall (H : Type) (h : H) b,
   body_domain b = true ->
   exists ty, to_data c15_event_tables (h, b) = Some (h, ty, data_of b)
@@ -194,21 +195,23 @@ Proof.
 Qed.
 Print Assumptions C15_node_injective.
 
-(** REFUTED on the unchanged source: ScheduledTraceEvent(where='srv', why=None) -- which
-    scheduler/master.py really posts (_update_task(app, servername, why=None)) -- encodes to 'srv:None',
-    decodes to why='None', a different event that shares its encoding. *)
+(** Scheduled events (repaired in /repo 8295b12: why=None is written without the ':' separator):
+    for every `where` without ':' and every why -- None or any string, ':' included -- the event reads back.
+    Before the repair ScheduledTraceEvent(where, why=None), which scheduler/master.py posts, was written as
+    'where:None' and read back as why='None'; that input stays in corpus/c15.json. *)
 Definition ex_srv : str := [115; 114; 118].
-Theorem C15_event_scheduled_why_none_refuted :
-  exists b b' ty d, b <> b'
-    /\ to_data c15_event_tables (tt, b) = Some (tt, ty, d)
-    /\ from_data c15_event_tables false tt ty d = Some (tt, b')
-    /\ to_data c15_event_tables (tt, b') = Some (tt, ty, d)
-    /\ b = Scheduled (Some ex_srv) None.
+Theorem C15_event_scheduled_roundtrip : forall (H : Type) (h : H) w y,
+  negb (memb colon w) = true ->
+  exists ty, to_data c15_event_tables (h, Scheduled (Some w) y) = Some (h, ty, data_of (Scheduled (Some w) y))
+             /\ from_data c15_event_tables false h ty (data_of (Scheduled (Some w) y))
+                = Some (h, Scheduled (Some w) y).
 Proof.
-  exists (Scheduled (Some ex_srv) None), (Scheduled (Some ex_srv) (Some none_str)).
-  eexists. eexists. vm_compute. repeat split; try reflexivity. discriminate.
+  intros H h w y Hw.
+  exact (match event_roundtrip c15_event_tables h (Scheduled (Some w) y) C15_event_tables_ok Hw with
+         | ex_intro _ ty (conj E (conj F _)) => ex_intro _ ty (conj E F)
+         end).
 Qed.
-Print Assumptions C15_event_scheduled_why_none_refuted.
+Print Assumptions C15_event_scheduled_roundtrip.
 
 (** REFUTED: why=None of pending / pending_delete / aborted events encodes to '' and decodes to why='' *)
 Theorem C15_event_why_none_refuted :
@@ -226,7 +229,7 @@ Print Assumptions C15_event_why_none_refuted.
     and a why containing ':' ; and the ',' hypothesis of node names is needed *)
 Example C15_event_nonvacuous :
   forallb body_domain
-    [Scheduled (Some ex_srv) (Some [97; 58; 98]); Pending (Some [120]); PendingDelete (Some []);
+    [Scheduled (Some ex_srv) (Some [97; 58; 98]); Scheduled (Some ex_srv) None; Pending (Some [120]); PendingDelete (Some []);
      Configured (Some [117]); Deleted; Finished (-1) 9; Aborted (Some [121]); Killed true; Killed false;
      ServiceRunning (Some [117]) (Some [97; 46; 98]); ServiceExited (Some [117]) (Some [97; 46; 46; 98]) (-255) 0;
      ServerState (Some [117; 112]); ServerBlackout; ServerBlackoutCleared] = true
@@ -278,7 +281,116 @@ Example C15_rule_nonvacuous :
      = Some [80; 82; 69; 82; 79; 85; 84; 73; 78; 71; 95; 68; 78; 65; 84; 58; 100; 110; 97; 116; 58; 116; 99; 112; 58; 42; 58; 42; 58; 49; 48; 46; 48; 46; 48; 46; 49; 58; 56; 48; 56; 48; 45; 49; 57; 50; 46; 49; 54; 56; 46; 49; 46; 50; 48; 58; 56; 48]
   /\ get_rule c15_rule_tables [80; 82; 69; 82; 79; 85; 84; 73; 78; 71; 95; 68; 78; 65; 84; 58; 115; 110; 97; 116; 58; 117; 100; 112; 58; 49; 57; 50; 46; 49; 54; 56; 46; 49; 46; 50; 48; 58; 57; 57; 57; 57; 57; 58; 42; 58; 42; 45; 49; 48; 46; 48; 46; 48; 46; 49; 58; 48]
      = Some (ex_chain, SNAT s_udp (Some ex_ip2) 99999 None 0 ex_ip1 0)
-  /\ (exists name, filenameify c15_rule_tables ex_chain (DNAT [105; 99; 109; 112] None 0 None 0 ex_ip2 80) = Some name
-                   /\ get_rule c15_rule_tables name = None)
+  /\ (match filenameify c15_rule_tables ex_chain (DNAT [105; 99; 109; 112] None 0 None 0 ex_ip2 80) with
+      | Some name => match get_rule c15_rule_tables name with None => true | Some _ => false end
+      | None => false
+      end) = true
   /\ get_rule c15_rule_tables [80; 82; 69; 82; 79; 85; 84; 73; 78; 71; 95; 68; 78; 65; 84; 58; 112; 97; 115; 115; 116; 104; 114; 111; 117; 103; 104; 58; 49; 48; 46; 48; 46; 48; 46; 49; 45; 49; 57; 50; 46; 49; 54; 56; 46; 49; 46; 50; 48; 10] = Some (ex_chain, PassThrough ex_ip1 ex_ip2).
-Proof. vm_compute. repeat split. eexists. split; reflexivity. Qed.
+Proof. vm_compute. repeat split. Qed.
+
+(** * 4. Resource objects as ZooKeeper payloads: zkutils._payload / get_with_metadata *)
+
+(** for every object of the JSON universe (null, bool, int, str, list, dict with str keys; characters below
+    the surrogate range; distinct keys in every dict): the payload is json.dumps(sort_keys=True), it is not the
+    empty payload, and it is read back as [canon v] -- v with every dict in key order, which is the same
+    Python value ([veq]: dict entries in any order) *)
+Theorem C15_zk_roundtrip : forall v, wf_value v = true ->
+  exists p, zk_payload (ZObj v) = Some p /\ p <> [] /\ zk_decode p = DVal (canon v) /\ veq v (canon v).
+Proof. intros v H. exact (zk_roundtrip v H). Qed.
+Print Assumptions C15_zk_roundtrip.
+
+(** None <-> the empty payload (read back through the YAML fallback, modelled only for the empty payload) *)
+Theorem C15_zk_none : zk_payload ZNone = Some [] /\ zk_decode [] = DVal VNull.
+Proof. exact zk_none. Qed.
+Print Assumptions C15_zk_none.
+
+(** objects that share a payload are the same value (up to dict order) *)
+Theorem C15_zk_injective : forall v1 v2, wf_value v1 = true -> wf_value v2 = true ->
+  zk_payload (ZObj v1) = zk_payload (ZObj v2) -> canon v1 = canon v2.
+Proof. intros v1 v2 H1 H2 H. exact (zk_injective v1 v2 H1 H2 H). Qed.
+Print Assumptions C15_zk_injective.
+
+(** the JSON layer alone: json.loads (json.dumps v) *)
+Theorem C15_json_roundtrip : forall v, wf_value v = true -> json_loads (json_dumps v) = POk (canon v) [].
+Proof. intros v H. exact (json_roundtrip v H). Qed.
+Print Assumptions C15_json_roundtrip.
+
+(** non-vacuity: the dict  b -> [1, -2, true, null, a string with newline, quote and e-acute], a -> {}  whose keys
+    get sorted; and a str payload is outside the statement:
+    the str '123' is stored as the bytes 123 and read back as the int 123 *)
+Definition ex_obj : value :=
+  VDict [([98], VList [VInt 1; VInt (-2); VBool true; VNull; VStr [120; 10; 34; 233]]); ([97], VDict [])].
+Example C15_zk_nonvacuous :
+  wf_value ex_obj = true
+  /\ zk_payload (ZObj ex_obj) = Some [123; 34; 97; 34; 58; 32; 123; 125; 44; 32; 34; 98; 34; 58; 32; 91; 49; 44; 32; 45; 50; 44; 32; 116; 114; 117; 101; 44; 32; 110; 117; 108; 108; 44; 32; 34; 120; 92; 110; 92; 34; 92; 117; 48; 48; 101; 57; 34; 93; 125]
+  /\ zk_decode [123; 34; 97; 34; 58; 32; 123; 125; 44; 32; 34; 98; 34; 58; 32; 91; 49; 44; 32; 45; 50; 44; 32; 116; 114; 117; 101; 44; 32; 110; 117; 108; 108; 44; 32; 34; 120; 92; 110; 92; 34; 92; 117; 48; 48; 101; 57; 34; 93; 125] = DVal (canon ex_obj)
+  /\ canon ex_obj <> ex_obj
+  /\ (zk_payload (ZStr [49; 50; 51]) = Some [49; 50; 51] /\ zk_decode [49; 50; 51] = DVal (VInt 123)).
+Proof. vm_compute. repeat split; discriminate. Qed.
+
+(** * 5. Admin objects as LDAP entries: admin/_ldap.py _dict_2_entry / _remove_empty / _entry_2_dict, _diff_entries *)
+
+Definition c15_ldap_names : list str := map fst c15_ldap_schemas.
+
+(** all 15 generated schema tables (Application, CellAllocation, Partition: _schema, the sub-schemas and the
+    combined schema()) have known type codes, distinct attribute names and distinct object fields among the
+    rows that carry an object field, lower-case attribute names without ';' *)
+Theorem C15_ldap_schemas_ok :
+  forallb (fun n => match alookup c15_ldap_schemas n with
+                    | Some rows => match conv_schema rows with Some _ => true | None => false end
+                    | None => false
+                    end && wf_schema (c15_ldap_schema n)) c15_ldap_names = true
+  /\ length c15_ldap_names = 15%nat.
+Proof. vm_compute. split; reflexivity. Qed.
+Print Assumptions C15_ldap_schemas_ok.
+
+Theorem C15_ldap_schemas_wf : forallb (fun n => wf_schema (c15_ldap_schema n)) c15_ldap_names = true.
+Proof. vm_compute. reflexivity. Qed.
+Print Assumptions C15_ldap_schemas_wf.
+
+(** for every generated schema and every object whose fields have the type of their row (None allowed,
+    int allowed in a str field, fields outside the schema allowed): to_entry, _remove_empty (what create()
+    stores) and from_entry succeed, and every field of the schema reads back as [expected_field]:
+    the value written -- except that a None value and an absent scalar field read as absent, an absent or
+    empty list reads as [], an int in a str field reads as its decimal text, a dict comes back with its
+    top-level keys sorted -- and nothing outside the schema is read back *)
+Theorem C15_ldap_roundtrip : forall n, In n c15_ldap_names ->
+  forall o, obj_typed (c15_ldap_schema n) o = true ->
+  exists o', ldap_store_load (c15_ldap_schema n) o = Some (Ok o') /\
+    (forall a f t, In (a, (f, t)) (active (c15_ldap_schema n)) ->
+       alookup o' f = expected_field t (alookup o f)) /\
+    (forall f, ~ In f (fields (c15_ldap_schema n)) -> alookup o' f = None).
+Proof. intros n Hin o Ht. exact (ldap_roundtrip_table c15_ldap_schema c15_ldap_names C15_ldap_schemas_wf n Hin o Ht). Qed.
+Print Assumptions C15_ldap_roundtrip.
+
+(** the same for any schema table that is well-formed *)
+Theorem C15_ldap_roundtrip_any_schema : forall sch o, wf_schema sch = true -> obj_typed sch o = true ->
+  exists o', ldap_store_load sch o = Some (Ok o') /\
+    (forall a f t, In (a, (f, t)) (active sch) -> alookup o' f = expected_field t (alookup o f)) /\
+    (forall f, ~ In f (fields sch) -> alookup o' f = None).
+Proof. intros sch o H1 H2. exact (ldap_roundtrip sch o H1 H2). Qed.
+Print Assumptions C15_ldap_roundtrip_any_schema.
+
+(** _diff_entries old new applied to old (LDAP modify: ADD / REPLACE / DELETE) yields new: every attribute
+    ends up with the value set it has in new (absent = no values), for entries with distinct lower-case
+    attribute names *)
+Theorem C15_ldap_diff_yields_new : forall old new, entry_ok old = true -> entry_ok new = true ->
+  forall a, same_values (eget (apply_mods old (diff_entries old new)) a) (eget new a).
+Proof. intros old new H1 H2 a. exact (diff_applied_yields_new old new H1 H2 a). Qed.
+Print Assumptions C15_ldap_diff_yields_new.
+
+(** non-vacuity: a partition with a list, a None field, an int, a dict whose keys get sorted; and a diff that
+    adds, replaces, deletes and leaves a reordered attribute alone *)
+Definition ex_partition : obj :=
+  [([95; 105; 100], FStr [112; 49]); ([115; 121; 115; 116; 101; 109; 115], FInts [1; 22]); ([99; 112; 117], FNone); ([100; 111; 119; 110; 45; 116; 104; 114; 101; 115; 104; 111; 108; 100], FInt 5);
+   ([100; 97; 116; 97], FDict [([98], VInt 1); ([97], VList [VBool true; VNull])])].
+Example C15_ldap_nonvacuous :
+  In [80; 97; 114; 116; 105; 116; 105; 111; 110; 46; 95; 115; 99; 104; 101; 109; 97] c15_ldap_names
+  /\ obj_typed (c15_ldap_schema [80; 97; 114; 116; 105; 116; 105; 111; 110; 46; 95; 115; 99; 104; 101; 109; 97]) ex_partition = true
+  /\ ldap_store_load (c15_ldap_schema [80; 97; 114; 116; 105; 116; 105; 111; 110; 46; 95; 115; 99; 104; 101; 109; 97]) ex_partition
+     = Some (Ok [([95; 105; 100], FStr [112; 49]); ([115; 121; 115; 116; 101; 109; 115], FInts [1; 22]); ([100; 111; 119; 110; 45; 116; 104; 114; 101; 115; 104; 111; 108; 100], FInt 5);
+                 ([100; 97; 116; 97], FDict [([97], VList [VBool true; VNull]); ([98], VInt 1)])])
+  /\ diff_entries [([116; 114; 97; 105; 116], [EStr [97]; EStr [98]]); ([99; 112; 117], [EStr [49]]); ([100; 105; 115; 107], [EStr [120]])]
+                  [([116; 114; 97; 105; 116], [EStr [98]; EStr [97]]); ([99; 112; 117], [EStr [50]]); ([100; 105; 115; 107], []); ([115; 104; 97; 114; 101; 100; 45; 105; 112], [EBool true])]
+     = [([99; 112; 117], MReplace [EStr [50]]); ([100; 105; 115; 107], MDelete); ([115; 104; 97; 114; 101; 100; 45; 105; 112], MAdd [EBool true])].
+Proof. vm_compute. repeat split. do 12 right. left. reflexivity. Qed.
